@@ -162,13 +162,23 @@ pub fn sample_set(rng: &mut Rng, p: &Params, shape: &Shape) -> SampleSet {
         rng.usize(1, shape.max_samples.min(9))
     };
     let many = ns > 20;
-    let nbase = if many { rng.usize(1, 3) } else { rng.usize(1, shape.max_contigs) };
+    // with many samples: sometimes nothing but tiny contigs (orphans fill the 16 raw groups past
+    // their first 49-entry pack), otherwise few contigs at high divergence (LZ groups collect
+    // more than 50 distinct deltas)
+    let orphan_mode = many && rng.chance(1, 3);
+    let nbase = if orphan_mode {
+        rng.usize(8, 10)
+    } else if many {
+        rng.usize(1, 3)
+    } else {
+        rng.usize(1, shape.max_contigs)
+    };
     let pansn = p.single_file || rng.chance(1, 3);
     let seg = p.segment_size;
     let k = p.k;
     let mut base: Vec<Vec<u8>> = Vec::new();
     for _ in 0..nbase {
-        let len = match rng.below(10) {
+        let len = match if orphan_mode { 0 } else { rng.below(10) } {
             0 => rng.usize(1, k), // shorter than (or equal to) k
             1 => rng.usize(k, k + 3),
             2 => rng.usize(1, 3),
@@ -195,7 +205,13 @@ pub fn sample_set(rng: &mut Rng, p: &Params, shape: &Shape) -> SampleSet {
     for si in 0..ns {
         let sname = if pansn { format!("S{:03}#{}", si, si % 2) } else { format!("smp{:03}", si) };
         let mut contigs: Vec<(String, Vec<u8>)> = Vec::new();
-        let div = if si == 0 { 0 } else { *rng.pick(&[0u64, 1, 3, 10, 30, 100]) };
+        let div = if si == 0 {
+            0
+        } else if many && rng.chance(2, 3) {
+            *rng.pick(&[30u64, 60, 100])
+        } else {
+            *rng.pick(&[0u64, 1, 3, 10, 30, 100])
+        };
         let mut order: Vec<usize> = (0..nbase).collect();
         if si > 0 && rng.chance(1, 4) {
             rng.shuffle(&mut order);
